@@ -128,6 +128,16 @@ def make_grid(nrows, ncols, csz, xll, yll):
     return Grid("g", ncols=ncols, nrows=nrows, cellsize=csz, xllcorner=xll, yllcorner=yll)
 
 
+def touch_grid(g):
+    """read every derived quantity once (so that a memoising implementation fills its caches)"""
+    try:
+        g.xvalues, g.yvalues, g.xlim, g.ylim
+        g.cell2coord(0)
+        g.coord2cell([[float(g.xllcorner), float(g.yllcorner)]])
+    except Exception:
+        pass
+
+
 def geom_case(nrows, ncols, csz, xll, yll):
     return {"nrows": nrows, "ncols": ncols, "csz": csz, "xll": xll, "yll": yll}
 
@@ -470,6 +480,23 @@ def run_unit(unit, ctx):
             ctx.count("grids")
             check_coord2cell(ctx, g, gc)
             check_cells(ctx, g, gc)
+    # history: ONE grid object whose origin is re-assigned through its public attributes between queries
+    # (anything memoised on the object must follow); the case records where the grid came from
+    gm = None
+    prev = None
+    for ox in unit["origins"]:
+        for oy in unit["origins"]:
+            xll, yll = csz * ox, csz * oy
+            gc = dict(geom_case(nrows, ncols, csz, xll, yll), moved_from=prev)
+            if gm is None:
+                gm = make_grid(nrows, ncols, csz, xll, yll)
+            else:
+                touch_grid(gm)
+                gm.xllcorner = np.float64(xll)
+                gm.yllcorner = np.float64(yll)
+            ctx.count("grids_moved")
+            check_cells(ctx, gm, gc)
+            prev = [xll, yll]
 
 
 def replay(case):
@@ -482,7 +509,15 @@ def replay(case):
                 {"key": key, "case": case, "msg": msg, "observed": observed, "expected": expected})
     ctx = All()
     gc = geom_case(case["nrows"], case["ncols"], case["csz"], case["xll"], case["yll"])
-    g = make_grid(gc["nrows"], gc["ncols"], gc["csz"], gc["xll"], gc["yll"])
+    if case.get("moved_from"):
+        # the grid was created elsewhere, queried, and then moved by attribute assignment
+        g = make_grid(gc["nrows"], gc["ncols"], gc["csz"], case["moved_from"][0], case["moved_from"][1])
+        touch_grid(g)
+        g.xllcorner = np.float64(gc["xll"])
+        g.yllcorner = np.float64(gc["yll"])
+        gc = dict(gc, moved_from=case["moved_from"])
+    else:
+        g = make_grid(gc["nrows"], gc["ncols"], gc["csz"], gc["xll"], gc["yll"])
     if case.get("kind") == "coord2cell":
         check_coord2cell(ctx, g, gc, only=(case["x"], case["y"], case.get("xtag", ""), case.get("ytag", "")))
     elif case.get("kind") == "coord2cell-call":
